@@ -3,7 +3,7 @@
    bookkeeping of which objects are announced by their holder (remote_reduce) - after the repairs
    "remote_pickle restores any number of opt-in attributes of one object", "... classes without __setstate__",
    "... patches no longer reach objects they are not addressed to". *)
-From PW Require Import Pickle.State Pickle.StateLoops Pickle.StateSteps Pickle.StateProofs.
+From PW Require Import Pickle.State Pickle.StateLoops Pickle.StateSteps Pickle.StateProofs Pickle.Announce.
 Open Scope Z_scope.
 
 (* For EVERY graph - opt-in objects at top level, as attributes of one another in any number (siblings) and to any
@@ -24,6 +24,21 @@ Theorem C14_dumps_then_loads :
   forall g p, announced_structurally g ->
     exists s, load g p = inr s /\ restored s = spec g (top_patches g p) /\ clean_end g p s.
 Proof. exact load_spec. Qed.
+
+(* A purely syntactic class inside that condition: all instances distinct, and an ATTRIBUTE that is a reference points to
+   the object itself or to an object it is nested in (parent pointers, cycles); references inside containers or inside
+   objects of classes which do not opt in are unrestricted.  For every such graph - any number of siblings, any depth,
+   containers, plain holders - and every patch dictionary, dumps followed by loads restores exactly per spec. *)
+Theorem C14_tidy_graphs_restore :
+  forall g p, tidy g ->
+    exists s, load g p = inr s /\ restored s = spec g (top_patches g p) /\ clean_end g p s.
+Proof. intros g p T. apply load_spec. apply tidy_announced_structurally. exact T. Qed.
+
+Definition C14_tidy_sample : node :=
+  Opt 0 true [(1, Opt 1 true [(9, Ref 0); (8, Ref 1)]); (2, Lst [Opt 2 false []; Opt 3 true [(1, Atom 4); (2, Ref 0)]; Ref 1]);
+              (3, Opt 4 true [(7, Opt 5 true [(1, Ref 4); (2, Ref 0)])]); (4, PObj [(1, Opt 6 true []); (2, Ref 5)]); (7, Opt 7 true [])].
+Example C14_example_tidy : tidy C14_tidy_sample.
+Proof. split; [repeat constructor; cbn; intuition congruence|cbn; intuition]. Qed.
 
 (* the hypothesis is satisfiable by non-trivial graphs: three siblings, a container-held pair between them, a child held
    by a plain object, a shared child referred to twice more, a cycle back to the top, a class without __setstate__ *)
@@ -49,4 +64,5 @@ Qed.
 
 Print Assumptions C14_every_graph_restores.
 Print Assumptions C14_dumps_then_loads.
+Print Assumptions C14_tidy_graphs_restore.
 Print Assumptions C14_refuted_first_occurrence_inside_an_earlier_attribute.
